@@ -8,7 +8,7 @@ import ast
 
 from .. import cli
 from ..astx import dotted, call_name, walk_no_nested, parent, ancestors, dominating_conditions, flatten_conditions, \
-    str_const
+    str_const, kwarg
 from ..core import norm, Inconclusive
 
 
@@ -530,6 +530,48 @@ def enclosing(n):
     return n
 
 
+def r14f(ctx):
+    m = ctx.model
+    ctx.rule("R14f", "--color reaches the output: a Printer without an explicit ansi_color takes it from out_stream.isatty(), and "
+                     "a colour Printer calls colorama.init(), which for a redirected sys.stdout installs a wrapper that STRIPS "
+                     "ANSI escapes; so no Printer built at import time (before main builds its own on sys.stdout) may come out "
+                     "as a colour printer through a writer class whose isatty() answers True unconditionally")
+    mod = "graphtage.printer"
+    tree = m.mods[mod]
+    n = 0
+    for st in m.toplevel(tree):
+        if not isinstance(st, (ast.Assign, ast.AnnAssign)) or st.value is None:
+            continue
+        c = st.value
+        if not (isinstance(c, ast.Call) and m.resolve_class(mod, c.func) == m.find_class("Printer")):
+            continue
+        n += 1
+        name = dotted(st.targets[0] if isinstance(st, ast.Assign) else st.target)
+        ac = kwarg(c, "ansi_color", 1)
+        if ac is not None and not (isinstance(ac, ast.Constant) and ac.value is None):
+            ctx.proved("R14f", m.files[mod], "<module>", st, f"{name} colour", f"ansi_color is given explicitly (`{norm(ac)}`)")
+            continue
+        out = kwarg(c, "out_stream", 0)
+        wq = m.resolve_class(mod, out.func) if isinstance(out, ast.Call) else None
+        if wq is None:
+            ctx.proved("R14f", m.files[mod], "<module>", st, f"{name} colour", "prints to the real sys.stdout: colour iff it is a terminal "
+                       "(colorama then wraps a tty without stripping)", nontrivial=False)
+            continue
+        isa = m.method(wq, "isatty")
+        rets = [r for r in walk_no_nested(isa.node) if isinstance(r, ast.Return)] if isa else []
+        always = rets and all(isinstance(r.value, ast.Constant) and r.value.value is True for r in rets)
+        ws = wq.rsplit(".", 1)[-1]
+        if always:
+            ctx.violation("R14f", isa.file, f"{ws}.isatty", rets[0], f"{name} colour",
+                          f"`{name} = {norm(c, 60)}` is built at import time; {ws}.isatty() always answers True, so it becomes a colour "
+                          f"printer and runs colorama.init() before main(): with stdout redirected that wraps sys.stdout in an "
+                          f"escape-stripping stream, main's printer is built on the wrapper, and `graphtage --color a b | cat` prints "
+                          f"no colour although Printer(stream, ansi_color=True) in the library does")
+        else:
+            ctx.proved("R14f", m.files[mod], "<module>", st, f"{name} colour", f"{ws}.isatty() does not claim a terminal")
+    ctx.floor("R14f", n, 2, "Printer objects built at import time")
+
+
 def run(ctx):
     m = ctx.model
     f, specs, groups = cli.parse_cli(m)
@@ -539,6 +581,9 @@ def run(ctx):
     r14c(ctx)
     r14d(ctx, f, specs)
     r14e(ctx)
+    r14f(ctx)
+    ctx.assume("where options may be placed relative to the two file names (argparse's intermixed parsing) and whether --quiet "
+               "silences third-party progress bars on stderr are not part of what is decided")
     ctx.assume("argparse semantics (dest derivation, store_const, mutually exclusive groups) as documented")
     ctx.assume("the library pipeline is build_tree -> TreeNode.diff -> formatter.print; output writers below "
                "Printer.write (status-line buffering) are not analysed")
